@@ -570,6 +570,7 @@ def noise_probe(ctx, n_hist):
     sample n(t); two samples of the same t in the same noise epoch must agree."""
     rng = ctx.rng
     kinds = 0
+    reported = 0
     for i in range(n_hist):
         cfg = rng.choice([{"kind": "exact"}, {"kind": "sys", "lead_in": "3/1", "k": "2/1"},
                           {"kind": "sys", "lead_in": "0/1", "k": "1/1"}, {"kind": "real"},
@@ -582,11 +583,13 @@ def noise_probe(ctx, n_hist):
                  nontrivial=bad is not None or any(op[0] in ("noise", "full", "all", "wf") for op in hist),
                  sample={"noise_history": summarize(hist), "cfg": cfg} if i < 1 else None)
         kinds += 1
-        if bad:
+        if bad and reported < 3:
+            reported += 1
             small = shrink(cfg, hist, lambda h: noise_history_bad(cfg, h, seed) is not None)
             what = noise_history_bad(cfg, small, seed)
             ctx.fail("noise:" + history_key(cfg, small),
-                     "noise realisation changed without an explicit reset: %s ; history: %s" % (what, summarize(small)),
+                     "noisy %s: waveform minus the sum of the received signals (= the noise) is not the same at the same "
+                     "absolute time although the noise was not reset: %s ; history: %s" % (json.dumps(cfg), what, summarize(small)),
                      {"kind": "noise", "cfg": cfg, "history": small, "np_seed": seed})
     return kinds
 
